@@ -5,11 +5,17 @@ INVS = ["S2NAsSoonAs", "S2SAsSoonAs", "S2NOnlyIf", "S2SOnlyIf", "AtMostOnce", "C
 BLOCKS = [((5, "A"), (4, "P")), ((5, "B"), (4, "P"))]
 
 
-def scenarios(kinds, parent_kinds, parent_votes=False):
+def scenarios(kinds, parent_kinds, parent_votes=False, sibling=()):
     out = []
     for pk in parent_kinds:
         votes = P.scn_votes([5], ["A", "B"], kinds)
         out.append(P.scn(votes=votes, certs=[(pk, 4, "P")], blocks=BLOCKS))
+    if sibling:
+        # the certificate in the parent slot is for ANOTHER block than B's parent: B must never be safe
+        votes = P.scn_votes([5], ["A", "B"], kinds)
+        for pk in sibling:
+            out.append(P.scn(votes=votes, certs=[(pk, 4, "P")],
+                             blocks=[((5, "A"), (4, "P")), ((5, "B"), (4, "Q"))]))
     if parent_votes:
         # the parent's certificate is formed by votes inside the pool
         votes = "(" + P.scn_votes([5], ["A", "B"], ["notar", "skip"]) + " \\cup " + \
@@ -22,7 +28,7 @@ def run(ctx):
     ctx.build_harness()
     if ctx.tier == "quick":
         P.run_model(ctx, "s2n_221_own0", [2, 2, 1], 0, 7,
-                    scenarios(["notar", "skip", "sf"], ["notar", "ff"]), INVS, P.rel_c06,
+                    scenarios(["notar", "skip", "sf"], ["notar", "ff"], sibling=["ff", "nf"]), INVS, P.rel_c06,
                     witnesses=["W_S2N", "W_S2S"])
         P.run_model(ctx, "s2n_221_own2", [2, 2, 1], 2, 7,
                     scenarios(["notar", "skip"], ["nf"], parent_votes=True), INVS, P.rel_c06)
@@ -30,7 +36,7 @@ def run(ctx):
         for stakes, own in (([2, 2, 1], 0), ([2, 2, 1], 2), ([3, 1, 1], 1), ([1, 1, 1], 0)):
             P.run_model(ctx, f"s2n_{''.join(map(str, stakes))}_own{own}", stakes, own, 7,
                         scenarios(["notar", "nf", "skip", "sf", "final"], ["notar", "nf", "ff"],
-                                  parent_votes=True),
+                                  parent_votes=True, sibling=["notar", "nf", "ff"]),
                         INVS, P.rel_c06, sample=1200000, timeout=3500, witnesses=["W_S2N", "W_S2S"])
         P.run_model(ctx, "s2n_11111_own0", [1, 1, 1, 1, 1], 0, 7,
                     scenarios(["notar", "skip"], ["notar"]), INVS, P.rel_c06, sample=800000, timeout=3500)
